@@ -25,6 +25,10 @@
 (*                  in lattice units (n = number of border points, c =     *)
 (*                  their centroid): fixed point with factor F per point   *)
 (*      raised      the call raised an exception                           *)
+(*      rep         the input representation in which the SAME lattice     *)
+(*                  coordinates were handed to the call (float64 grid /    *)
+(*                  ndarray, integer dtype, Python int tuples, float32);   *)
+(*                  the expectation does not depend on it                  *)
 (*      hist        number of calls made before on the SAME relocator      *)
 (*                  instance (with other data grids); every call is judged *)
 (*                  against the border of the grid passed to that call     *)
@@ -186,7 +190,8 @@ Sig(r) ==
     IF r.api = "select"
     THEN IF SubsOk(r) /\ \A k \in DOMAIN r.sub : r.sub[k] = r.sub[1] THEN "select-uniform-sub" ELSE "select-mixed-sub"
     ELSE IF r.api = "relocate"
-    THEN r.call \o (IF r.hist > 0 THEN "-on-reused-relocator" ELSE "")
+    THEN r.call \o (IF r.rep \in {"f64-irregular", "f64-ndarray"} THEN "" ELSE "-" \o r.rep)
+                \o (IF r.hist > 0 THEN "-on-reused-relocator" ELSE "")
                 \o (IF r.raised THEN "-raised" ELSE IF Len(r.bidx) = 1 THEN "-single-border-point" ELSE "")
     ELSE r.api
 
